@@ -302,6 +302,15 @@ def execute(case):
                          f'{got.flatten()[:4].tolist()} expected {want.flatten()[:4].tolist()}', culprit)
                     return
 
+    # a trainable architectural parameter that received a gradient from loss + cost once must receive one again at
+    # every later complete backward pass while it is trainable (learned from the run itself: which parameters take part
+    # in the forward pass depends on the method - MPS also lists quantizers that are never called); forgotten whenever
+    # the sampling options change (disabling sampling or hard SuperNet selection legitimately cut the path)
+    participated = set()
+
+    def reaches_graph(name, p):
+        return name in participated
+
     def check_grads(culprit, tag):
         m = rep.model
         for n, p in m.named_parameters():
@@ -313,7 +322,16 @@ def execute(case):
                          f'{tag}: {n}.grad={g.flatten()[:4].tolist()}', culprit)
                     return
             else:
-                want = exp[ref.kind.get(id(p)) or ref.kind_by_name.get(n, 'net')]
+                kind_ = ref.kind.get(id(p)) or ref.kind_by_name.get(n, 'net')
+                want = exp[kind_]
+                if want and kind_ != 'net' and bool(p.requires_grad) and g is None and reaches_graph(n, p):
+                    bump('trainable_without_gradient_found')
+                    fail('an architectural parameter of a trainable group received no gradient from loss + cost',
+                         'trainable-no-grad', f'{tag}: {n} kind={kind_} requires_grad=True grad=None', culprit)
+                    return
+                if want and kind_ != 'net' and bool(p.requires_grad) and g is not None:
+                    participated.add(n)
+                    bump('trainable_grad_presence_checks')
                 if not want:
                     bump('nontrainable_grad_checks')
                     if g is not None and bool(torch.any(g != 0)):
@@ -378,11 +396,14 @@ def execute(case):
         elif k == 'load_ckpt' and opts is not None and method == 'mps' and saved_temperature[0] is not None:
             opts['temperature'] = saved_temperature[0]      # MPS keeps its temperature in a buffer: it comes back
         elif k == 'softmax_opts' and opts is not None:
+            participated.clear()
             for kk, vv in op['kw'].items():
                 if kk == 'temperature':
                     opts['temperature'] = float(vv)
                 else:
                     opts[kk] = bool(vv)
+        if k == 'set_mode':
+            participated.clear()         # (hard SuperNet selection in eval mode is a plain one_hot(argmax): no gradient)
         if k in ('train_nas_only', 'train_net_only', 'train_net_and_nas', 'set_flag', 'softmax_opts', 'set_mode'):
             last_control = lab
             control_kinds.add(k if k not in ('train_nas_only', 'train_net_only', 'train_net_and_nas') else 'train_group')
